@@ -24,11 +24,23 @@ class Outline:
         return self
 
 
+class Coords:
+    """polygon.__geo_interface__['coordinates']: the exact binary64 coordinates of one polygon, as a token"""
+    _pyvc_model_class = True
+
+    def __init__(self, poly):
+        self.poly = poly
+
+
 class AbstractPoly:
     _pyvc_model_class = True
 
     def __init__(self, term, n):
         self.term, self.n = term, n
+
+    @property
+    def __geo_interface__(self):
+        return {'type': 'Polygon', 'coordinates': Coords(self)}
 
     @property
     def exterior(self):
